@@ -381,3 +381,120 @@ func init() {
 		}
 	})
 }
+
+// useBeforeErrCheck: for a call returning (v, err) whose err IS tested somewhere in fn, a use of v
+// at a point that dominates every test of that err (the author believes the call can fail, yet v is
+// consumed first). Uses that only pass v to the error test itself / to a log call do not count.
+type errOrder struct {
+	Use  ssa.Instruction
+	Call *ssa.Call
+	Test *ssa.If
+}
+
+func useBeforeErrCheck(fn *ssa.Function) []errOrder {
+	var out []errOrder
+	if fn.Blocks == nil {
+		return nil
+	}
+	pos := map[ssa.Instruction]int{}
+	for _, b := range fn.Blocks {
+		for i, ins := range b.Instrs {
+			pos[ins] = i
+		}
+	}
+	for _, b := range fn.Blocks {
+		for _, ins := range b.Instrs {
+			c, ok := ins.(*ssa.Call)
+			if !ok {
+				continue
+			}
+			tup, isTup := c.Type().(*types.Tuple)
+			if !isTup || tup.Len() < 2 || tup.At(tup.Len()-1).Type().String() != "error" {
+				continue
+			}
+			var errEx *ssa.Extract
+			var vals []*ssa.Extract
+			if c.Referrers() == nil {
+				continue
+			}
+			for _, ref := range *c.Referrers() {
+				if ex, isEx := ref.(*ssa.Extract); isEx {
+					if ex.Index == tup.Len()-1 {
+						errEx = ex
+					} else {
+						vals = append(vals, ex)
+					}
+				}
+			}
+			if errEx == nil || errEx.Referrers() == nil {
+				continue
+			}
+			// tests of this err
+			var tests []*ssa.If
+			for _, ref := range *errEx.Referrers() {
+				bo, isB := ref.(*ssa.BinOp)
+				if !isB || bo.Referrers() == nil {
+					continue
+				}
+				for _, r2 := range *bo.Referrers() {
+					if iff, isIf := r2.(*ssa.If); isIf {
+						tests = append(tests, iff)
+					}
+				}
+			}
+			if len(tests) == 0 {
+				continue
+			}
+			for _, vx := range vals {
+				if vx.Referrers() == nil {
+					continue
+				}
+				for _, use := range *vx.Referrers() {
+					if _, isDbg := use.(*ssa.DebugRef); isDbg || use.Parent() != fn {
+						continue
+					}
+					if _, isPhi := use.(*ssa.Phi); isPhi {
+						continue
+					}
+					if _, isRet := use.(*ssa.Return); isRet {
+						continue
+					}
+					if _, isSt := use.(*ssa.Store); isSt {
+						continue // assignment to a named result / variable is not consumption
+					}
+					before := true
+					var first *ssa.If
+					for _, t := range tests {
+						tb := t.Block()
+						ub := use.Block()
+						dom := (ub == tb && pos[use] < pos[ssa.Instruction(t)]) || (ub != tb && ub.Dominates(tb))
+						if !dom {
+							before = false
+						}
+						first = t
+					}
+					if before {
+						out = append(out, errOrder{Use: use, Call: c, Test: first})
+					}
+				}
+			}
+		}
+	}
+	return out
+}
+
+func init() {
+	if os.Getenv("VERIF_RESET_PROBE") == "" {
+		return
+	}
+	register("XORD", func(p *engine.Prog, r *engine.Report) {
+		for _, f := range p.AllFuncs() {
+			if pk := engine.FuncPkg(f); pk == nil || !engine.IsRepoPkg(pk) || f.Synthetic != "" || f.Blocks == nil || isTestish(p.Pos(f.Pos())) {
+				continue
+			}
+			for _, c := range useBeforeErrCheck(f) {
+				r.Note("XORD", engine.RelName(f)+"|"+engine.CallID(c.Call), p.InstrPos(c.Use), "result used before the error test at "+p.InstrPos(c.Test))
+			}
+		}
+	})
+}
